@@ -113,6 +113,11 @@ class WindowedWeightedCalibration(
             ),
         )
 
+    def reset(self: TWindowedWeightedCalibration) -> TWindowedWeightedCalibration:
+        super().reset()
+        self.next_inserted = 0
+        return self
+
     @torch.inference_mode()
     # pyre-ignore[14]: `update` overrides method defined in `Metric` inconsistently.
     def update(
